@@ -21,6 +21,78 @@ const causeOf = (a, b, recursive) => {
 import { hostilePool } from "../gen/valgen.mjs";
 import { Rng } from "../lib/rng.mjs";
 import { compileText } from "../lib/util.mjs";
+import { refsOfDecl, refsOfType, renameIn, renameDecl } from "../gen/split.mjs";
+
+// twin of a parser type over copies of its declarations in which ONE reference to a named type points
+// at another named type of the same program (a recursive back-edge aimed at a different enclosing type,
+// a property typed with a sibling declaration, ...)
+function retargetTwin(prog, victim, rng) {
+  const byName = new Map(prog.decls.map((d) => [d.name, d]));
+  const seen = new Set();
+  const stack = [...refsOfType(victim.t)];
+  while (stack.length) {
+    const n = stack.pop();
+    if (seen.has(n) || !byName.has(n)) continue;
+    seen.add(n);
+    for (const m of refsOfDecl(byName.get(n))) stack.push(m);
+  }
+  const reach = prog.decls.filter((d) => seen.has(d.name) && (d.d === "alias" || d.d === "iface"));
+  const plain = new Set(reach.filter((d) => !(d.params || []).length).map((d) => d.name));
+  if (plain.size < 2) return null;
+  const countIn = (d, f) => {
+    if (d.d === "alias") return { ...d, t: mapType(d.t, f) };
+    return { ...d, props: d.props.map((p) => ({ ...p, t: mapType(p.t, f) })) };
+  };
+  const sites = [];
+  for (const d of reach) {
+    let k = 0;
+    countIn(d, (x) => {
+      if (x.k === "ref" && !(x.args || []).length && plain.has(x.name) && !(d.params || []).includes(x.name)) sites.push([d.name, k++, x.name]);
+      return x;
+    });
+  }
+  if (!sites.length) return null;
+  const [dn, k, from] = rng.pick(sites);
+  const to = rng.pick([...plain].filter((n) => n !== from));
+  const map = new Map(reach.map((d) => [d.name, d.name + "_tw"]));
+  const twins = reach.map((d) => {
+    let e = d;
+    if (d.name === dn) {
+      let i = 0;
+      e = countIn(d, (x) => (x.k === "ref" && !(x.args || []).length && plain.has(x.name) && !(d.params || []).includes(x.name) && i++ === k ? { ...x, name: to } : x));
+    }
+    return { ...renameDecl(e, map), name: map.get(d.name) };
+  });
+  return { decls: [...prog.decls, ...twins], tB: renameIn(victim.t, map), what: `${dn}: ${from} -> ${to}` };
+}
+
+// chains of named object types T1 -> T2 -> ... -> Tn (optional `child`), whose members carry optional
+// back-references; variants differ only in WHICH enclosing type a back-reference names
+function recursionGrid() {
+  const out = [];
+  for (const n of [2, 3])
+    for (const holder of Array.from({ length: n }, (_, i) => i + 1)) {
+      const variants = [];
+      for (let target = 1; target <= n; target++) {
+        const name = (i, v) => `T${i}_${v}`;
+        const v = `n${n}h${holder}t${target}`;
+        const decls = [];
+        for (let i = 1; i <= n; i++) {
+          const props = [`kind: "k${i}"`];
+          if (i < n) props.push(`child?: ${name(i + 1, v)}`);
+          if (i === holder) props.push(`back?: ${name(target, v)}`);
+          decls.push(`type ${name(i, v)} = { ${props.join("; ")} };`);
+        }
+        // the member that walks down to the holder and follows the back-reference once
+        let val = { $obj: "plain", fields: [["kind", `k${target}`, 1]] };
+        val = { $obj: "plain", fields: [["kind", `k${holder}`, 1], ["back", val, 1]] };
+        for (let i = holder - 1; i >= 1; i--) val = { $obj: "plain", fields: [["kind", `k${i}`, 1], ["child", val, 1]] };
+        variants.push({ v, root: name(1, v), decls, val, target });
+      }
+      out.push({ id: `chain${n}/holder${holder}`, variants });
+    }
+  return out;
+}
 
 // ---- (a) stream monitor: wrap the writer's prototype from outside (TypeScript `private` is erased)
 const streamFaults = [];
@@ -211,6 +283,37 @@ export async function run(ctx) {
     ctx.count("string_injectivity_pool", pool.size);
   }
 
+  // (c'') recursion grid: types that differ only in the target of a back-reference
+  if (ctx.shard === 0) {
+    for (const g of recursionGrid()) {
+      const text = g.variants.flatMap((x) => x.decls).join("\n") + `\nexport const P = parse.buildParsers<{ ${g.variants.map((x) => `${x.v}: ${x.root}`).join("; ")} }>();\n`;
+      const r = await compileText(ctx, text);
+      if (!r.parsers) throw new Error("C13 recursion grid does not compile: " + g.id);
+      const vals = g.variants.map((x) => fromEjson(x.val));
+      for (let i = 0; i < g.variants.length; i++)
+        for (let j = i + 1; j < g.variants.length; j++) {
+          const a = r.parsers[g.variants[i].v],
+            b = r.parsers[g.variants[j].v];
+          const va = vectorOf(a, vals),
+            vb = vectorOf(b, vals);
+          ctx.judged();
+          ctx.count("recursion_grid_pairs");
+          if (va === vb) {
+            ctx.inconclusive("recursion-grid-pair-not-distinguished");
+            continue;
+          }
+          const k = [...va].findIndex((c, q) => c !== vb[q]);
+          if (a.hash256() === b.hash256())
+            ctx.violation({
+              signature: `back-reference-target-not-in-digest|${g.id}|targets:${g.variants[i].target}/${g.variants[j].target}`,
+              clause: "behaviour-implies-digest",
+              detail: `${g.variants[i].decls.join(" ")}  vs  ${g.variants[j].decls.join(" ")} share a hash256 but disagree on ${show(vals[k])}`,
+              replay: { kind: "pair", a: { text, parser: g.variants[i].v }, b: { text, parser: g.variants[j].v }, value: g.variants[k].val },
+            });
+        }
+    }
+  }
+
   const buckets = new Map(); // digest -> {vector, example}
   const pool = COMMON_POOL();
   const nProgs = ctx.share(3000, 60000);
@@ -273,6 +376,38 @@ export async function run(ctx) {
             ctx.sample({ type: renderType(victim.t).slice(0, 200), twin: renderType(twinT).slice(0, 200), distinguishing_value: show(vals[i], 100), digests_differ: true });
           }
         }
+      }
+    }
+
+    // (c') twin with one reference retargeted inside the declarations
+    {
+      const rng3 = item.rng.fork("retarget");
+      const victim3 = rng3.pick(prog.parsers);
+      const tw = retargetTwin(prog, victim3, rng3);
+      if (tw) {
+        const text = renderProgram({ decls: tw.decls, parsers: [{ name: "A", t: victim3.t }, { name: "B", t: tw.tB }] });
+        const r4 = await compileText(ctx, text);
+        if (r4.parsers) {
+          const vals = valuesFor(item, prog.cores.get(victim3.name), { members: 12, mutantsPer: 2, hostile: false }).map((x) => x.v);
+          const va = vectorOf(r4.parsers.A, vals),
+            vb = vectorOf(r4.parsers.B, vals);
+          ctx.judged();
+          ctx.count(va !== vb ? "retarget_distinguishable" : "retarget_indistinguishable_on_pool");
+          if (va !== vb) {
+            const i = [...va].findIndex((c, k) => c !== vb[k]);
+            let same = false;
+            try {
+              same = r4.parsers.A.hash256() === r4.parsers.B.hash256();
+            } catch {}
+            if (same)
+              ctx.violation({
+                signature: `retargeted-reference-shares-digest|${coreKinds(prog.env, prog.cores.get(victim3.name)).has("recursive") ? "recursive" : "non-recursive"}`,
+                clause: "behaviour-implies-digest",
+                detail: `retargeted ${tw.what}; the two parsers share a hash256 but disagree on ${show(vals[i])}\n${text.slice(0, 1500)}`,
+                replay: { kind: "pair", a: { text, parser: "A" }, b: { text, parser: "B" }, value: toEjson(vals[i]) },
+              });
+          }
+        } else ctx.count("retarget_twin_rejected");
       }
     }
 
